@@ -39,18 +39,30 @@ func c05Case(r *mon.Run, rng *rand.Rand, s *rfix.Star, idx int) {
 	sc := s.GenScenario(rng, shape, time.Now().Unix())
 	local := s.Cfg.IA
 	other := addr.MustParseIA("4-ff00:0:abc")
-	srcMode, dstMode := rng.IntN(3), rng.IntN(3)
+	// near misses of the local ISD-AS: same AS number in another ISD, same ISD
+	// with a neighbouring AS number
+	sameAS := addr.MustIAFrom(local.ISD()+1, local.AS())
+	sameISD := addr.MustIAFrom(local.ISD(), local.AS()^1)
+	srcMode, dstMode := rng.IntN(5), rng.IntN(5)
 	switch srcMode {
 	case 1:
 		sc.SrcIA = local
 	case 2:
 		sc.SrcIA = other
+	case 3:
+		sc.SrcIA = sameAS
+	case 4:
+		sc.SrcIA = sameISD
 	}
 	switch dstMode {
 	case 1:
 		sc.DstIA = local
 	case 2:
 		sc.DstIA = other
+	case 3:
+		sc.DstIA = sameAS
+	case 4:
+		sc.DstIA = sameISD
 	}
 	// arrival
 	arrival := "external"
